@@ -195,7 +195,7 @@ func c13(w *core.World, r *core.Report) {
 			// the recursion's result is appended
 			for _, c := range core.CallsTo(conv, "utils.Converter.ConvertNotificationTypedValues") {
 				used := false
-				for _, b := range conv.Blocks {
+				for _, b := range core.Blocks(conv) {
 					for _, in := range b.Instrs {
 						if ap, ok := in.(*ssa.Call); ok {
 							if bi, isB := ap.Call.Value.(*ssa.Builtin); isB && bi.Name() == "append" && len(ap.Call.Args) == 2 {
@@ -254,8 +254,8 @@ func c13(w *core.World, r *core.Report) {
 	r.Rule("PRUNE-BRACKET", 4, "a re-sync cycle is bracketed: CreatePruneID executes only on the Start outcome, ApplyPrune only on 'End && pruneID != \"\"', the id is reset after a successful ApplyPrune, and neither is called from the per-notification worker.")
 	for _, c := range core.CallsTo(syncFn, "cache.Client.CreatePruneID") {
 		ok := false
-		for _, g := range core.GuardsOf(c) {
-			if g.CondTrue() && core.FieldOf(g.If.Cond) == "datastore/target.SyncUpdate.Start" {
+		for _, at := range core.GuardAtoms(c) {
+			if at.True && core.FieldOf(at.Cond) == "datastore/target.SyncUpdate.Start" {
 				ok = true
 			}
 		}
@@ -263,11 +263,12 @@ func c13(w *core.World, r *core.Report) {
 	}
 	for _, c := range core.CallsTo(syncFn, "cache.Client.ApplyPrune") {
 		okEnd, okID := false, false
-		for _, g := range core.GuardsOf(c) {
-			if g.CondTrue() && core.FieldOf(g.If.Cond) == "datastore/target.SyncUpdate.End" {
+		atoms := core.GuardAtoms(c)
+		for _, at := range atoms {
+			if at.True && core.FieldOf(at.Cond) == "datastore/target.SyncUpdate.End" {
 				okEnd = true
 			}
-			if a, b, eqOnTrue, isEq := core.EqTest(g.If.Cond); isEq && eqOnTrue != g.CondTrue() {
+			if a, b, eqOnTrue, isEq := core.EqTest(at.Cond); isEq && eqOnTrue != at.True {
 				for _, x := range []ssa.Value{a, b} {
 					if s, isC := core.ConstString(x); isC && s == "" {
 						okID = true
@@ -279,8 +280,8 @@ func c13(w *core.World, r *core.Report) {
 		// ... and on nothing else: every completed cycle is pruned, whatever it delivered (an empty device config
 		// is a completed cycle too). Other guards may only be the select of the main loop and error tests.
 		extra := ""
-		for _, g := range core.GuardsOf(c) {
-			cond, _ := core.StripNot(g.If.Cond)
+		for _, at := range atoms {
+			cond := at.Cond
 			if f := core.FieldOf(cond); f == "datastore/target.SyncUpdate.End" || f == "datastore/target.SyncUpdate.Start" {
 				continue
 			}
@@ -488,7 +489,7 @@ func c14(w *core.World, r *core.Report) {
 				}
 				return nil
 			}
-			for _, b := range f.Blocks {
+			for _, b := range core.Blocks(f) {
 				for _, in := range b.Instrs {
 					st, ok := in.(*ssa.Store)
 					if !ok {
@@ -501,7 +502,7 @@ func c14(w *core.World, r *core.Report) {
 					}
 				}
 			}
-			for _, b := range f.Blocks {
+			for _, b := range core.Blocks(f) {
 				for _, in := range b.Instrs {
 					sl, ok := in.(*ssa.Slice)
 					if !ok || sl.High == nil {
@@ -528,7 +529,7 @@ func c14(w *core.World, r *core.Report) {
 		}
 		n := 0
 		for _, g := range append([]*ssa.Function{f}, f.AnonFuncs...) {
-			for _, b := range g.Blocks {
+			for _, b := range core.Blocks(g) {
 				for _, in := range b.Instrs {
 					var at ssa.Instruction
 					switch x := in.(type) {
